@@ -12,6 +12,10 @@ CHECKS = {
                 technique="property-based testing: generated operation histories + heartbeat cadence model, oracle = own parser of the binary format (round trip against recorded live state)",
                 text="Hypothesis-generated histories (add/remove/remove-all/switch/reset integrator/settings/variations) with manual snapshots, and automatic interval/step cadence runs; every loaded snapshot's field map must equal the map recorded from the live simulation when it was written; count, times and cadence checked against a model of the documented rule. Exploration: no counterexample among the generated histories counted in evidence.",
                 note="Trusts: reb_simulation_save_to_stream as the observation of live state (content parsed by the harness's own format parser), Python heartbeat as observation of step boundaries. Pointer members, padding, walltime and the callbacks-used flag are not state."),
+    "C05": dict(level="exploration", design="1/C05",
+                technique="property-based testing: generated simulations x option lattice x save method (file/pickle/bytes/copy) round trip + differential continuation of original vs restored",
+                text="Hypothesis-generated simulations over the documented option lattice with every documented user-settable option drawn non-default, advanced to generated save points (unsynchronised, after mergers, adaptive mid-run, variational/MEGNO), restored by four routes, callbacks re-attached by name; persisted field maps must be identical, every set option must read back, and original and restored must stay bitwise equal over a generated continuation. Exploration: no counterexample among the cases counted in evidence.",
+                note="Trusts the harness's own parser of the binary format and the ctypes mirror for reading options back (C18 checks the mirror). Pointer members, padding, walltime, the callbacks-used flag and never-assigned members of ri_whfast.p_jh (ax..az, r, last_collision, hash) are not persisted quantities. TRACE with dt<0 is skipped (known finding under C08)."),
 }
 
 NOT_APPLICABLE = []
